@@ -78,6 +78,18 @@ def run_verus_unit(unit, tier):
         return r
     res = verusrun.run(out, timeout=900, rlimit=ex['spec'].get('rlimit'))
     cl = verusrun.classify(res, ex['origin'], ex['lines'])
+    # Termination obligation of a loop that has no spliced measure (an edit added the loop): Verus refuses it with "loop must
+    # have a decreases clause".  For a unit whose failures are alarms only together with a concrete input from the oracle
+    # (fail_needs_replay) this is reported as a failed termination obligation -- the oracle then has to exhibit an input on
+    # which the real code does not terminate; otherwise it stays undecided.  Only when it is the sole diagnostic.
+    if ex['spec'].get('fail_needs_replay') and ex['spec'].get('new_loop_is_termination_obligation') and not cl['failures'] \
+            and cl['undecided'] and all(re.search(r'loop must have a decreases clause', u.get('message', '') or '') for u in cl['undecided']):
+        for u in cl['undecided']:
+            u = dict(u, kind='termination')
+            u.pop('reason', None)
+            cl['failures'].append(u)
+        cl['undecided'] = []
+        cl['status'] = 'failed'
     r['checker_cmd'] = res['cmd']
     r['status'] = cl['status']
     r['stats'] = cl['stats']
@@ -218,6 +230,9 @@ def main(argv=None):
             found = replay.search(pid, r['unit'], f, REPO, VERIF, a.tier, seed)
         except Exception as e:  # the search is an aid; its failure never changes the verdict
             found = {'found': False, 'note': 'replay search crashed: %r' % e}
+        if f.get('kind') == 'termination' and found.get('found') and not re.search(r'does not terminate', json.dumps(found.get('violations'))):
+            # a termination obligation is confirmed only by an input on which the real code does not terminate
+            found = {'found': False, 'tried': (found.get('tried') or []) + ['the oracle found a failing input of another kind (%s); it does not confirm a termination obligation' % str(found.get('describe'))[:200]]}
         rp['concrete'] = found
         k = None
         for kf in known:
